@@ -163,7 +163,8 @@ Lemma chain_root_rel : forall G a a' G1, alpha_a G a a' G1 ->
 Proof.
   intros G a a' G1 Ha. induction Ha; cbn; try tauto; try (split; discriminate).
   - (* qualified: both are chains of reads/accesses *)
-    clear H. induction H0; cbn; [split; discriminate|assumption].
+    match goal with Hn : Alpha.alpha_ns _ _ _ |- _ =>
+      clear - Hn; induction Hn; cbn; [split; discriminate|assumption] end.
 Qed.
 
 Lemma namespace_type_list_rel st st' fid t t' :
@@ -609,6 +610,41 @@ Proof.
   - apply sim_fail.
 Qed.
 
+Lemma stack_has_l (s : list (string * N)) (G : ctx) x :
+  map fst s = map fst G -> (match stack_find s x with Some _ => true | None => false end) = ctx_has_l G x.
+Proof.
+  revert s. induction G as [|[a a'] G IH]; intros [|[n r] s] H; try discriminate; [reflexivity|].
+  cbn in H. injection H as -> H. cbn. destruct (String.eqb a x); [reflexivity|]. cbn. apply IH. assumption.
+Qed.
+
+Lemma stack_has_r (s : list (string * N)) (G : ctx) x :
+  map fst s = map snd G -> (match stack_find s x with Some _ => true | None => false end) = ctx_has_r G x.
+Proof.
+  revert s. induction G as [|[a a'] G IH]; intros [|[n r] s] H; try discriminate; [reflexivity|].
+  cbn in H. injection H as -> H. cbn. destruct (String.eqb a' x); [reflexivity|]. cbn. apply IH. assumption.
+Qed.
+
+Lemma access_ns_applies G st st' fid a a' :
+  R G st st' -> ns_applies fl G a a' ->
+  access_namespace fl st fid a = namespace_list st fid a /\ access_namespace fl st' fid a' = namespace_list st' fid a'.
+Proof.
+  intros HR [Hf|[Hl Hr]]; unfold access_namespace; [rewrite Hf; auto|].
+  unfold root_on_stack. split.
+  - destruct (chain_root a) as [x|]; [|rewrite andb_false_r; reflexivity].
+    rewrite (stack_has_l _ G x (r_names _ _ _ HR)), Hl, andb_false_r. reflexivity.
+  - destruct (chain_root a') as [x|]; [|rewrite andb_false_r; reflexivity].
+    rewrite (stack_has_r _ G x (r_names' _ _ _ HR)), Hr, andb_false_r. reflexivity.
+Qed.
+
+Lemma access_roots_local G st st' fid a a' :
+  R G st st' -> access_local_first fl = true -> roots_local G a a' ->
+  access_namespace fl st fid a = Ok None /\ access_namespace fl st' fid a' = Ok None.
+Proof.
+  intros HR Hf Hl. unfold roots_local in Hl. unfold access_namespace, root_on_stack. rewrite Hf.
+  destruct (chain_root a) as [x|], (chain_root a') as [x'|]; try contradiction. destruct Hl as [H1 H2].
+  rewrite (stack_has_l _ G x (r_names _ _ _ HR)), H1, (stack_has_r _ G x' (r_names' _ _ _ HR)), H2. auto.
+Qed.
+
 Definition access_k (a : passign) (i : ident) (sp : span) (ns : option N) : M expr :=
   match ns with
   | Some ns =>
@@ -623,7 +659,7 @@ Definition access_k (a : passign) (i : ident) (sp : span) (ns : option N) : M ex
 
 Lemma assign_access_eq a i sp st :
   assign_r fl (S f) (AAccess a i sp) st =
-  match namespace_list st (sp_file sp) a with
+  match access_namespace fl st (sp_file sp) a with
   | Ok ns => access_k a i sp ns st
   | Err e => Err e
   | Panic s => Panic s
@@ -631,7 +667,7 @@ Lemma assign_access_eq a i sp st :
   end.
 Proof.
   cbn [assign_r]. unfold bind at 1. unfold lift at 1.
-  destruct (namespace_list st (sp_file sp) a) as [[ns|]| | |]; reflexivity.
+  destruct (access_namespace fl st (sp_file sp) a) as [[ns|]| | |]; reflexivity.
 Qed.
 
 Lemma step_a : Sa (S f).
@@ -657,24 +693,27 @@ Proof.
     eapply sim_bind; [apply sim_args; eassumption|]. intros y y' Hy.
     apply sim_ret. unfold Re, Rl in *. cbn. congruence.
   - (* AAccess, certainly a namespace path *)
-    destruct H1 as [Hg Hs]. intros st st' HR. rewrite !assign_access_eq.
-    rewrite (namespace_list_rel _ _ _ _ _ (r_gr _ _ _ HR) H0).
-    destruct (gr_sure _ _ (r_gr _ _ _ HR) _ _ H) as [ns Hns]. rewrite Hns. unfold access_k.
+    destruct H2 as [Hg Hs]. intros st st' HR. rewrite !assign_access_eq.
+    destruct (access_ns_applies _ _ _ (sp_file sp) _ _ HR H) as [-> ->].
+    rewrite (namespace_list_rel _ _ _ _ _ (r_gr _ _ _ HR) H1).
+    destruct (gr_sure _ _ (r_gr _ _ _ HR) _ _ H0) as [ns Hns]. rewrite Hns. unfold access_k.
     apply (sim_ns_member G ns i i' sp Hg Hs st st' HR).
   - (* AAccess, undetermined *)
     intros st st' HR. rewrite !assign_access_eq.
-    rewrite (namespace_list_rel _ _ _ _ _ (r_gr _ _ _ HR) H).
+    destruct (access_ns_applies _ _ _ (sp_file sp) _ _ HR H) as [-> ->].
+    rewrite (namespace_list_rel _ _ _ _ _ (r_gr _ _ _ HR) H0).
     destruct (namespace_list st (sp_file sp) a) as [[ns|]| | |]; cbn [rel_res]; auto; unfold access_k.
-    + apply (sim_ns_member G ns i i' sp H3 H2 st st' HR).
+    + apply (sim_ns_member G ns i i' sp H4 H3 st st' HR).
     + revert st st' HR. fold (sim G G Re (v <- assign_r fl f a ;; ret (EBlobAccess v (i_name i) (i_span i)))
                                     (v <- assign_r fl f a' ;; ret (EBlobAccess v (i_name i') (i_span i')))).
       eapply sim_bind; [apply IHa; eassumption|]. intros x x' Hx. apply sim_ret. unfold Re in *. cbn. congruence.
   - (* AAccess, certainly a field access *)
-    intros st st' HR. rewrite !assign_access_eq. unfold namespace_list.
-    rewrite (namespace_file_not_ns st (sp_file sp) a (gr_isns _ _ (r_gr _ _ _ HR) (sp_file sp)) H).
-    rewrite (namespace_file_not_ns st' (sp_file sp) a' (gr_isns' _ _ (r_gr _ _ _ HR) (sp_file sp)) H0).
+    intros st st' HR. rewrite !assign_access_eq.
+    destruct (access_ns_applies _ _ _ (sp_file sp) _ _ HR H) as [-> ->]. unfold namespace_list.
+    rewrite (namespace_file_not_ns st (sp_file sp) a (gr_isns _ _ (r_gr _ _ _ HR) (sp_file sp)) H0).
+    rewrite (namespace_file_not_ns st' (sp_file sp) a' (gr_isns' _ _ (r_gr _ _ _ HR) (sp_file sp)) H1).
     rewrite (gpanic_rel _ _ (sp_file sp) (r_gr _ _ _ HR)).
-    pose proof (chain_root_rel _ _ _ _ H1) as Hcr.
+    pose proof (chain_root_rel _ _ _ _ H2) as Hcr.
     assert (Hfb : rel_res Re G1 (access_k a i sp None st) (access_k a' i sp None st')).
     { unfold access_k. revert st st' HR.
       fold (sim G G1 Re (v <- assign_r fl f a ;; ret (EBlobAccess v (i_name i) (i_span i)))
@@ -685,6 +724,13 @@ Proof.
     + exfalso. destruct Hcr as [_ B]. discriminate (B eq_refl).
     + exfalso. destruct Hcr as [A _]. discriminate (A eq_refl).
     + cbn [rbind]. exact Hfb.
+  - (* AAccess, the root is a declaration in scope and the code looks there first *)
+    intros st st' HR. rewrite !assign_access_eq.
+    destruct (access_roots_local _ _ _ (sp_file sp) _ _ HR H H0) as [-> ->]. unfold access_k.
+    revert st st' HR.
+    fold (sim G G1 Re (v <- assign_r fl f a ;; ret (EBlobAccess v (i_name i) (i_span i)))
+                      (v <- assign_r fl f a' ;; ret (EBlobAccess v (i_name i) (i_span i)))).
+    eapply sim_bind; [apply IHa; eassumption|]. intros y y' Hy. apply sim_ret. unfold Re in *. cbn. congruence.
   - (* AIndex *) cbn [assign_r].
     eapply sim_bind; [apply IHa; eassumption|]. intros x x' Hx.
     eapply sim_bind; [apply IHe; eassumption|]. intros y y' Hy.
